@@ -496,7 +496,8 @@ def run(ctx):
               "ts = value of the field, ts_description = its name", key="R15.5:iter_timestamped_records:ts-record")
     ecalls = [c for c in ast.walk(loop) if isinstance(c, ast.Call) and getattr(prog.resolve_expr(base, c.func), "qualname", "").endswith("extend_record")]
     ok = len(ecalls) == 1 and isinstance(ecalls[0].args[1], ast.List) and len(ecalls[0].args[1].elts) == 1 and get_kw(ecalls[0], "replace") is None and get_kw(ecalls[0], "name") is not None
-    first_is_ts = ok and any(isinstance(st, ast.Assign) and norm(st.targets[0]) == norm(ecalls[0].args[0]) and st.value is tcalls[0] for st in ast.walk(loop)) if tcalls else False
+    first_is_ts = ok and (ecalls[0].args[0] is tcalls[0] or any(isinstance(st, ast.Assign) and norm(st.targets[0]) == norm(ecalls[0].args[0]) and st.value is tcalls[0]
+                                                                for st in ast.walk(loop))) if tcalls else False
     ctx.check(ok and first_is_ts, "R15.5", "iter_timestamped_records:composition", "the expansion is not extend_record(ts_record, [record], name=<original name>)", loop,
               "timestamp fields first, original fields kept (first wins, no replace)", key="R15.5:iter_timestamped_records:composition")
     ctx.check("getfields" in norm(loop.iter) or any(isinstance(st, ast.Assign) and norm(st.targets[0]) == norm(loop.iter) and "getfields('datetime')" in norm(st.value) for st in walk_no_nested(its)),
